@@ -387,15 +387,27 @@ func specDotL(cf specFn2, wf specFn2, i, k, n int) gf2p16.T {
 //@   requires 0 <= a && a <= 65535 && 0 <= b && b <= 65535
 //@   ensures mathint(a)*mathint(b) <= 4294836225
 
+// C07: entry (a, b) of the Cauchy matrix is the field inverse of x(a) + y(b): its product with
+// x(a) ^ y(b) is 1. The x and y values must be disjoint (precondition), so no inversion of 0.
 //@ func newCauchyMatrix
 //@   props C07
 //@   note pure-param xFunc
 //@   note pure-param yFunc
+//@   inst-counters
 //@   requires rows <= 65535 && columns <= 65535
+//@   requires forall(a, 0, rows, forall(b, 0, columns, xFunc(a) != yFunc(b)))
 //@   panics rows <= 0 || columns <= 0
 //@   modifies nothing
 //@   ensures matOK(result) && result.rows == rows && result.columns == columns
+//@   ensures forall(a, 0, rows, forall(b, 0, columns, gf2p16.SpecGfmul(xFunc(a) ^ yFunc(b), result.elements[mathint(a)*mathint(columns)+b]) == 1))
 //@   use mulSmall(rows, columns)
+
+// Element function of the Cauchy matrix (called by NewMatrixFromFunction with 0 <= i < rows, 0 <= j < columns).
+//@ func newCauchyMatrix$1
+//@   props C07
+//@   pure
+//@   requires xFunc(i) != yFunc(j)
+//@   ensures gf2p16.SpecGfmul(xFunc(i) ^ yFunc(j), result) == 1
 
 // C05/C07: entry (a, b) of the Vandermonde matrix is alpha(b)^a (field power, specGfpow of C08).
 //@ func newVandermondeMatrix
@@ -419,9 +431,23 @@ func specDotL(cf specFn2, wf specFn2, i, k, n int) gf2p16.T {
 
 //@ func newCauchyParityMatrix
 //@   props C07
+//@   inst-counters
 //@   requires dataShards > 0 && parityShards > 0 && mathint(dataShards) + mathint(parityShards) <= 65535
 //@   modifies nothing
 //@   ensures matOK(result) && result.rows == parityShards && result.columns == dataShards
+
+// x(i) = dataShards + i and y(j) = j: disjoint because dataShards + parityShards <= 65535 (no 16-bit wrap).
+//@ func newCauchyParityMatrix$1
+//@   props C07
+//@   pure
+//@   requires 0 <= i && mathint(dataShards) + mathint(i) <= 65535 && dataShards >= 0
+//@   ensures mathint(result) == mathint(dataShards) + mathint(i)
+
+//@ func newCauchyParityMatrix$2
+//@   props C07
+//@   pure
+//@   requires 0 <= i && i <= 65535
+//@   ensures mathint(result) == mathint(i)
 
 // C05: the PAR2 parity matrix: row e, column i holds generators[i]^e (the specification's constant
 // c_i raised to the exponent of the recovery block).
